@@ -12,5 +12,7 @@ RULES = {"C18.a", "C18.b", "C18.c", "C18.d"}
 def check(ctx):
     dot_rules.analyze(ctx, RULES)
     # the property is observed on scanners obtained through build(): the cache must hand back the configuration's own compilation
+    from . import adaptors
+    adaptors.analyze(ctx, ("C18.e",))
     from .common import cache_foundation
     cache_foundation(ctx)
